@@ -79,6 +79,23 @@ def run(ctx, replay):
     scs = scenarios(ctx)
     R.execute(ctx, scs, "c02", ["C02."])
     R.concurrent(ctx, ["C02."], admin=True, tag="conc-admin")
+    # administration racing with weight adjustments of the rebalancer: a removed server stays removed until it is added again
+    tp = vlib.os.path.join(ctx.work, "trace-rebaladmin.ndjson")
+    cfg = {"goroutines": 8, "adminops": 1500 if quick else 8000}
+    p = vlib.run_harness(ctx, ["stress", "rebaladmin", "-trace", tp, "-seed", str(ctx.seed), "-cfg", vlib.json.dumps(cfg)], allow_fail=True)
+    if p.returncode == 3:
+        ctx.hangs.append({"id": "stress", "cfg": {"subject": "rb", "stress": cfg}, "steps": [], "component": "rebaladmin-stress"})
+    elif p.returncode != 0:
+        raise vlib.InfraError("rebaladmin stress failed: " + p.stderr[-2000:])
+    else:
+        res = vlib.validate_trace(ctx, "Trace_Conc", tp, "rebaladmin")
+        for b in res["bad"]:
+            vlib.add_violation(ctx, "C02.RemovedStaysRemovedWhileWeightsAdjust", "C02.RemovedStaysRemovedWhileWeightsAdjust",
+                               {"id": "rebaladmin", "cfg": {"subject": "rb", "stress": cfg}, "steps": [],
+                                "recorded": vlib.scenario_traces(tp).get("rebaladmin", [])}, "rebaladmin-stress",
+                               detail="a server removed through the rebalancer was a pool member again without being added")
+        ctx.traces += 1
+        ctx.scenarios += 1
     return vlib.finish(ctx, "model_checking",
                        "scenario = history of add/update/remove calls interleaved with selections and requests whose "
                        "handler rewrites the URL; distinct = distinct op/key/weight/mutation sequences; non-trivial = "
